@@ -14,22 +14,23 @@ Section DelSim.
 Variables C B A : Z.
 Variable adr : Z -> Z.
 Hypothesis adr_inj : forall a b, adr a = adr b -> a = b.
-(* different (buffer, index) pairs are different block addresses (for real addresses: the layout theorem) *)
-Hypothesis blk_inj : forall b j b' j', Gen_MemPool.pvGetBlock B A (adr b) j = Gen_MemPool.pvGetBlock B A (adr b') j' -> b = b' /\ j = j'.
+(* different (buffer, index) pairs with VALID indexes 0 <= j < blockCount are different block addresses (buffers' block ranges are disjoint) *)
+Hypothesis blk_inj : forall b j b' j', 0 <= j < C -> 0 <= j' < C ->
+  Gen_MemPool.pvGetBlock B A (adr b) j = Gen_MemPool.pvGetBlock B A (adr b') j' -> b = b' /\ j = j'.
 
 Lemma adr_eqb a b : (adr a =? adr b) = (a =? b).
 Proof. destruct (Z.eqb_spec a b) as [->|N]; [apply Z.eqb_refl|]. destruct (Z.eqb_spec (adr a) (adr b)) as [E|_]; [apply adr_inj in E; contradiction|reflexivity]. Qed.
-Lemma blk_eqb b j b' j' :
+Lemma blk_eqb b j b' j' : 0 <= j < C -> 0 <= j' < C ->
   (Gen_MemPool.pvGetBlock B A (adr b') j' =? Gen_MemPool.pvGetBlock B A (adr b) j) = ((b' =? b) && (j' =? j)).
 Proof.
-  destruct (Z.eqb_spec (Gen_MemPool.pvGetBlock B A (adr b') j') (Gen_MemPool.pvGetBlock B A (adr b) j)) as [E|N].
-  - apply blk_inj in E. destruct E as (-> & ->). rewrite !Z.eqb_refl. reflexivity.
+  intros Hj Hj'. destruct (Z.eqb_spec (Gen_MemPool.pvGetBlock B A (adr b') j') (Gen_MemPool.pvGetBlock B A (adr b) j)) as [E|N].
+  - apply blk_inj in E; [|assumption|assumption]. destruct E as (-> & ->). rewrite !Z.eqb_refl. reflexivity.
   - destruct (Z.eqb_spec b' b) as [->|]; [|reflexivity]. destruct (Z.eqb_spec j' j) as [->|]; [contradiction|reflexivity].
 Qed.
 
 Theorem sim_del_push_only_partial w p hd bf bcnt nx pv nfi b j :
   PoolBlkSim.Sim C B A adr w p hd bf bcnt nx nfi ->
-  0 < b < PoolConc.fresh w ->
+  0 < b < PoolConc.fresh w -> 0 <= j < C ->
   let c1 := PoolConc.fc w b + 1 in
   0 <= c1 < 2 ^ 63 -> c1 <> 1 -> c1 <> C ->
   exists bf' bcnt' nfi',
@@ -37,7 +38,7 @@ Theorem sim_del_push_only_partial w p hd bf bcnt nx pv nfi b j :
       Ok (tt, hd, 0, bf', bcnt', nx, pv, nfi') /\
     PoolBlkSim.Sim C B A adr (PoolConc.pvDeleteBlock C w p (b, j)) p hd bf' bcnt' nx nfi'.
 Proof.
-  intros (Ehd & Lk & Ids & F0 & Maps & Nfi & Pre) Hb c1 Hc N1 NC. destruct (Maps b Hb) as (Mb & Mc).
+  intros (Ehd & Lk & Ids & F0 & Maps & Nfi & Pre) Hb Hj c1 Hc N1 NC. destruct (Maps b Hb) as (Mb & Mc).
   rewrite PoolDelGen.generated_deleteblock_is_model. unfold PoolDelGen.delblock_model. cbv zeta. rewrite Mc. fold c1.
   rewrite (wrapU_small 64 c1) by (change (2 ^ 64) with 18446744073709551616; change (2 ^ 63) with 9223372036854775808 in Hc; lia).
   destruct (Z.eqb_spec c1 1) as [|_]; [contradiction|]. destruct (Z.eqb_spec c1 C) as [|_]; [contradiction|].
@@ -53,11 +54,11 @@ Proof.
   split; [exact Ehd|]. split; [exact Lk|]. split; [exact Ids|]. split; [exact F0|]. split; [|split].
   - intros b' Hb'. unfold w1, PoolConc.set_bytes, PoolConc.set_nx; cbn [PoolConc.fb PoolConc.fc]. unfold upd. rewrite !adr_eqb.
     destruct (Z.eqb_spec b' b) as [->|Nb]; [split; reflexivity|]. apply Maps; exact Hb'.
-  - intros b' j' Hb'. unfold w1, PoolConc.set_bytes, PoolConc.set_nx; cbn [PoolConc.nx]. unfold upd. rewrite blk_eqb.
-    destruct ((b' =? b) && (j' =? j)); [exact Mb|apply Nfi; exact Hb'].
+  - intros b' j' Hb' Hj'. unfold w1, PoolConc.set_bytes, PoolConc.set_nx; cbn [PoolConc.nx]. unfold upd. rewrite blk_eqb by assumption.
+    destruct ((b' =? b) && (j' =? j)); [exact Mb|apply Nfi; assumption].
   - intros k Hk. destruct (Pre k Hk) as (Q1 & Q2 & Q3 & Q4). unfold upd. rewrite !adr_eqb. destruct (Z.eqb_spec k b) as [->|_]; [lia|].
-    split; [exact Q1|]. split; [exact Q2|]. split; [exact Q3|]. intros j'. rewrite blk_eqb.
-    destruct (Z.eqb_spec k b); [lia|]. cbn [andb]. apply Q4.
+    split; [exact Q1|]. split; [exact Q2|]. split; [exact Q3|]. intros j' Hj'. rewrite blk_eqb by assumption.
+    destruct (Z.eqb_spec k b); [lia|]. cbn [andb]. apply Q4; exact Hj'.
 Qed.
 
 (* ---------- Allocate / Deallocate histories on one pool without the cache path (Allocate = pvNewBlock, Deallocate = pvDeleteBlock),
@@ -68,7 +69,7 @@ Hypothesis adr0 : adr 0 = 0.
 Inductive op := OA | OD (b j : Z).
 
 Definition okd (w : PoolConc.cworld) (b j : Z) : Prop :=
-  0 < b < PoolConc.fresh w /\ 0 <= PoolConc.fc w b + 1 < 2 ^ 63 /\ PoolConc.fc w b + 1 <> 1 /\ PoolConc.fc w b + 1 <> C.
+  0 < b < PoolConc.fresh w /\ 0 <= j < C /\ 0 <= PoolConc.fc w b + 1 < 2 ^ 63 /\ PoolConc.fc w b + 1 <> 1 /\ PoolConc.fc w b + 1 <> C.
 
 Fixpoint mrun2 (ops : list op) (w : PoolConc.cworld) (p : bool) : list PoolConc.blk * PoolConc.cworld :=
   match ops with
@@ -79,7 +80,7 @@ Fixpoint mrun2 (ops : list op) (w : PoolConc.cworld) (p : bool) : list PoolConc.
 Fixpoint okrun (ops : list op) (w : PoolConc.cworld) (p : bool) : Prop :=
   match ops with
   | [] => True
-  | OA :: t => okrun t (fst (PoolConc.pvNewBlock C w p)) p
+  | OA :: t => PoolBlkSim.head_ok C w p /\ okrun t (fst (PoolConc.pvNewBlock C w p)) p
   | OD b j :: t => okd w b j /\ okrun t (PoolConc.pvDeleteBlock C w p (b, j)) p
   end.
 
@@ -113,13 +114,13 @@ Proof.
   induction ops as [|o ops IH]; intros w p hd bf bcnt nx pv nfi H Ok.
   - exists hd, bf, bcnt, nx, pv, nfi. split; [reflexivity|exact H].
   - destruct o as [|b j]; cbn [mrun2 grun2 okrun] in *.
-    + pose proof (PoolBlkSim.sim_step C B A adr HC adr0 adr_inj w p hd bf bcnt nx pv nfi H) as St.
+    + destruct Ok as (Hh & Ok). pose proof (PoolBlkSim.sim_step C B A adr HC adr0 adr_inj w p hd bf bcnt nx pv nfi H Hh) as St.
       destruct (PoolConc.pvNewBlock C w p) as (w' & (b & i)). cbn [fst] in Ok.
       destruct St as (hd2 & bf2 & bc2 & nx2 & pv2 & E & Ef & H2). rewrite E, <- Ef.
       destruct (IH w' p hd2 bf2 bc2 nx2 pv2 nfi H2 Ok) as (hd' & bf' & bc' & nx' & pv' & nfi' & Er & Hf).
       rewrite Er. destruct (mrun2 ops w' p) as (l & wf). exists hd', bf', bc', nx', pv', nfi'. split; [reflexivity|exact Hf].
-    + destruct Ok as ((Hb & Hc & N1 & NC) & Ok).
-      destruct (sim_del_push_only_partial w p hd bf bcnt nx pv nfi b j H Hb Hc N1 NC) as (bf2 & bc2 & nfi2 & E & H2).
+    + destruct Ok as ((Hb & Hj & Hc & N1 & NC) & Ok).
+      destruct (sim_del_push_only_partial w p hd bf bcnt nx pv nfi b j H Hb Hj Hc N1 NC) as (bf2 & bc2 & nfi2 & E & H2).
       rewrite E.
       assert (PoolConc.fresh (PoolConc.pvDeleteBlock C w p (b, j)) = PoolConc.fresh w) as Ef.
       { destruct H2 as (_ & _ & _ & _ & _ & _ & _). unfold PoolConc.pvDeleteBlock. cbn [fst snd]. unfold PoolConc.push. cbn [fst snd].
@@ -132,3 +133,31 @@ Proof.
 Qed.
 End DelSim.
 
+
+(* ---------- non-vacuity: ALL hypotheses of the simulation theorems hold together for a concrete pool (blockCount 4, blockSize 8,
+   alignment 8, buffer k at address 1024 * k, block (k, j) at 1024 k + 8 j + 8) in its initial state ---------- *)
+Lemma blkaddr_4_8_8 k j : 0 <= j < 4 -> Gen_MemPool.pvGetBlock 8 8 (k * 1024) j = k * 1024 + j * 8 + 8.
+Proof.
+  intros Hj. unfold Gen_MemPool.pvGetBlock. change (wrapS 64 8) with 8. rewrite Z.geb_leb.
+  destruct (Z.leb_spec 0 j); [|lia]. change (Z.land 8 (- (1))) with 8. reflexivity.
+Qed.
+
+Lemma sim_hypotheses_satisfiable :
+  exists C B A adr,
+    (forall a b, adr a = adr b -> a = b) /\
+    (forall b j b' j', 0 <= j < C -> 0 <= j' < C ->
+       Gen_MemPool.pvGetBlock B A (adr b) j = Gen_MemPool.pvGetBlock B A (adr b') j' -> b = b' /\ j = j') /\
+    2 <= C /\ adr 0 = 0 /\
+    exists p bf bcnt nx nfi, PoolBlkSim.Sim C B A adr PoolConc.empty_world p 0 bf bcnt nx nfi /\ PoolBlkSim.head_ok C PoolConc.empty_world p.
+Proof.
+  exists 4, 8, 8, (fun k => k * 1024).
+  split; [intros a b E; lia|]. split.
+  { intros b j b' j' Hj Hj'. rewrite !blkaddr_4_8_8 by assumption. lia. }
+  split; [lia|]. split; [reflexivity|].
+  exists false, (fun _ => 0), (fun _ => 4), (fun _ => 0), (fun a => PoolBlkSim.chainv 4 ((a mod 1024 - 8) / 8)).
+  split; [|exact I].
+  apply PoolBlkSim.sim_init; [reflexivity|]. intros k Hk. split; [reflexivity|]. split; [reflexivity|]. split; [reflexivity|].
+  intros j Hj. rewrite blkaddr_4_8_8 by assumption. f_equal.
+  replace (k * 1024 + j * 8 + 8) with (j * 8 + 8 + k * 1024) by lia. rewrite Z.mod_add by lia. rewrite Z.mod_small by lia.
+  replace (j * 8 + 8 - 8) with (j * 8) by lia. apply Z.div_mul. lia.
+Qed.
